@@ -11,11 +11,25 @@
   itself rounds and `|x|` may exceed `M` by less than one ulp (witness below).
 -/
 import ScionTime.Proofs.C01
+import ScionTime.Gen.Sync
 
 namespace ScionTime.Props.C01
 open ScionTime.Sync ScionTime.F64
 
 deriving instance DecidableEq for Except
+
+/-! ### pins: structure of `Run` regenerated from /repo on every run (harness/extract/x_c01.go) -/
+
+/-- the start-up panics of `Run`, in source order, are the model's `StartErr` messages -/
+theorem C01_pin_startupMessages : Gen.Sync.startupMessages =
+    [StartErr.refImpact, .peerImpact, .peerGap, .interval, .timeout, .refCap, .peerCap].map StartErr.msg := by
+  decide
+
+/-- the loop body calls `adj.Do` exactly once and `clk.Sleep` exactly once, both as direct
+    (unconditional) statements of the loop body -/
+theorem C01_pin_oneDoOneSleep :
+    Gen.Sync.adjDoCallsInLoop = 1 ∧ Gen.Sync.adjDoUnconditional = 1 ∧
+    Gen.Sync.sleepCallsInLoop = 1 ∧ Gen.Sync.sleepUnconditional = 1 := by decide
 
 /-! ### Example configuration (the defaults of timeservice.go: 1.25, 2.5, 50 µs, 500 ms, 1 s;
     drift 10 µs per interval; two reference clocks, one peer) -/
@@ -271,6 +285,19 @@ theorem C01_admissible_iff (c : Cfg) : admissible c = true ↔
 theorem C01_admissible_sound (c : Cfg) (hW : WF c.refImpact) (ha : admissible c = true) :
     ∃ r p d mr mp, AdmissibleReal c r p d mr mp :=
   admissible_real c hW ha
+
+/-- The caps are the real products `factor × drift` up to one rounding (relative error at most
+    2^-53), and `float64(drift)` is the drift itself up to 2^53 ns: this connects `M_ref`,
+    `M_peer` of the theorems above with "impact factor × configured drift × sync interval"
+    of the statement (`drift = clk.Drift(SyncInterval)`). -/
+theorem C01_cap_is_product (c : Cfg) (hW : WF c.refImpact) (ha : admissible c = true) :
+    ∃ r p d mr mp, AdmissibleReal c r p d mr mp ∧
+      (mr - r * d).abs ≤ (r * d) / pow2 53 ∧ (mp - p * d).abs ≤ (p * d) / pow2 53 ∧
+      (c.drift.toInt ≤ 2^53 → d = (c.drift.toInt : Rat)) := by
+  obtain ⟨r, p, d, mr, mp, A⟩ := admissible_real c hW ha
+  have hd := drift_d_ge_one A.drift_f A.drift_pos
+  exact ⟨r, p, d, mr, mp, A, cap_rel_err A.ref_gt_one hd A.refCap_eq,
+    cap_rel_err A.peer_gt_one hd A.peerCap_eq, drift_d_exact A.drift_f A.drift_pos⟩
 
 /-- NaN factors are refused (repaired checks) -/
 theorem C01_nan_refused (c : Cfg) (h : c.refImpact = .nan ∨ c.peerImpact = .nan) :
